@@ -94,6 +94,7 @@ def model (arg : String) : String :=
       let valid (s : Song) : Bool := match validateAll s with | .ok _ => true | .error _ => false
       match Opt.optimize valid minScore 100000 song (Opt.initialSubId song) [] with
       | .error .missingTrack => s!"before={showV before} result=exc:out_of_range"
+      | .error (.missingDrum p) => s!"before={showV before} result=threw:drum_mode_error:_track_*{p}_is_not_defined"
       | .error .stackListOOB => s!"before={showV before} result=UB:stack-list-oob"
       | .error .fuel => "MODEL:fuel"
       | .ok r =>
